@@ -146,27 +146,22 @@ example : checkEvents [] 0 [.float ⟨0, 0, 60, 50, .left⟩, .box 0 100 60 0 40
 def FloatsInv (shapes : List Shape) : Prop := Proper shapes ∧ SortedTops shapes ∧ PairwiseDisjoint shapes
 
 theorem GoodFloat_move (b : ABox) (x y : Rat) (h : GoodFloat b) : GoodFloat { b with px := x, py := y } := by
-  obtain ⟨h1, h2, h3, h4⟩ := h
-  exact ⟨h1, h2, by simpa [ABox.marginHeight] using h3, by simpa [ABox.marginWidth] using h4⟩
+  obtain ⟨h1, h3, h4⟩ := h
+  exact ⟨h1, by simpa [ABox.marginHeight] using h3, by simpa [ABox.marginWidth] using h4⟩
 
-/-- `float_layout` when `context.excluded_shapes` is the stack's top (always, except after a line was started
-again): the placement part `floatPlace`. -/
-theorem floatLayout_self (shapes : List Shape) (b : ABox) (cb : CB) :
-    floatLayout shapes shapes b cb = floatPlace shapes b cb := rfl
-
-/-- With no float inside the line, `get_next_linebox` leaves both float lists alone. -/
+/-- With no float inside the line, `get_next_linebox` leaves `excluded_shapes` alone. -/
 private theorem lineLoop_shapes (cb : CB) (strut : Rat) (align : Align) (l : LineSpec) (shapes0 : List Shape)
     (hl : l.floats = []) (fuel : Nat) (px py avail lbw cand : Rat) (t : LineTry)
-    (h : lineLoop cb strut align l shapes0 fuel shapes0 shapes0 px py avail lbw cand = .ok t) :
-    t.shapes = shapes0 ∧ t.top = shapes0 ∧ t.marks = [] := by
+    (h : lineLoop cb strut align l shapes0 fuel px py avail lbw cand = .ok t) :
+    t.shapes = shapes0 ∧ t.marks = [] := by
   induction fuel generalizing px py avail lbw cand with
   | zero => simp [lineLoop] at h
   | succ n ih =>
-    simp only [lineLoop, hl, inlinePass1, ite_self] at h
+    simp only [lineLoop, hl, inlinePass1] at h
     split at h
     · simp at h
     · split at h
-      · simp at h; rw [← h]; exact ⟨rfl, rfl, rfl⟩
+      · simp at h; rw [← h]; exact ⟨rfl, rfl⟩
       · split at h
         · simp at h
         · cases hr : cb.rtl <;>
@@ -174,34 +169,33 @@ private theorem lineLoop_shapes (cb : CB) (strut : Rat) (align : Align) (l : Lin
             split at h <;>
             first
               | exact ih _ _ _ _ _ h
-              | (simp only [Except.ok.injEq] at h; rw [← h]; exact ⟨rfl, rfl, rfl⟩)
+              | (simp only [Except.ok.injEq] at h; rw [← h]; exact ⟨rfl, rfl⟩)
 
 private theorem layoutLines_shapes (cb : CB) (fs : Rat) (align : Align) (shapes : List Shape)
     (ls : List LineSpec) (hls : ∀ l ∈ ls, l.floats = []) (y : Rat)
-    (shapes' top' : List Shape) (out : List PlacedLine) (y' : Rat)
-    (h : layoutLines cb fs align shapes shapes ls y = .ok (shapes', top', out, y')) :
-    shapes' = shapes ∧ top' = shapes := by
-  induction ls generalizing y out y' shapes' top' with
-  | nil => simp [layoutLines] at h; exact ⟨h.1.symm, h.2.1.symm⟩
+    (shapes' : List Shape) (out : List PlacedLine) (y' : Rat)
+    (h : layoutLines cb fs align shapes ls y = .ok (shapes', out, y')) : shapes' = shapes := by
+  induction ls generalizing y out y' shapes' with
+  | nil => simp [layoutLines] at h; exact h.1.symm
   | cons l rest ih =>
     simp only [layoutLines] at h
     split at h
     · simp at h
     · rename_i t ht
       have hl := hls l (by simp)
-      have hts : t.shapes = shapes ∧ t.top = shapes ∧ t.marks = [] := by
+      have hts : t.shapes = shapes ∧ t.marks = [] := by
         unfold nextLinebox at ht
         simp only at ht
         split at ht
         · simp at ht
         · exact lineLoop_shapes cb fs align l shapes hl _ _ _ _ _ _ t ht
-      simp only [hts.1, hts.2.1, hts.2.2, inlinePass2] at h
+      simp only [hts.1, hts.2, inlinePass2] at h
       split at h
       · simp at h
-      · rename_i s3 t3 r y3 hrec
+      · rename_i s3 r y3 hrec
         simp only [Except.ok.injEq, Prod.mk.injEq] at h
-        have := ih (fun l hl => hls l (by simp [hl])) _ _ _ _ _ hrec
-        rw [← h.1, ← h.2.1]; exact this
+        have := ih (fun l hl => hls l (by simp [hl])) _ _ _ _ hrec
+        rw [← h.1]; exact this
 
 
 /-- The items the theorem is about: floats with area (given resolved or by their computed style), any
@@ -222,55 +216,51 @@ def floatRects : List Placed → List (Rat × Rat × Rat × Rat)
 def Shape.rect (s : Shape) : Rat × Rat × Rat × Rat := (s.x, s.y, s.mw, s.mh)
 
 private theorem flowFloat_inv (cb : CB) (st st' : FlowState) (b : ABox) (pl : Placed)
-    (hb : GoodFloat b) (hinv : FloatsInv st.shapes) (htop : st.top = st.shapes)
-    (h : flowFloat cb st b = .ok (st', pl)) :
-    FloatsInv st'.shapes ∧ st'.top = st'.shapes ∧ ∃ x y mw mh, pl = .float x y mw mh ∧
+    (hb : GoodFloat b) (hinv : FloatsInv st.shapes) (h : flowFloat cb st b = .ok (st', pl)) :
+    FloatsInv st'.shapes ∧ ∃ x y mw mh, pl = .float x y mw mh ∧
       st'.shapes.map Shape.rect = st.shapes.map Shape.rect ++ [(x, y, mw, mh)] := by
   unfold flowFloat at h
-  rw [htop, floatLayout_self] at h
   split at h
   · simp at h
   · rename_i b' shapes' hpl
     simp only [Except.ok.injEq, Prod.mk.injEq] at h
-    obtain ⟨g1, g2, g3, g4⟩ := GoodFloat_move b cb.cx (st.y + collapseMargin st.adj) hb
-    obtain ⟨i1, i2, i3, _, _⟩ := float_place_invariants st.shapes _ cb b' shapes' g1 g2 g3 g4
+    obtain ⟨g1, g3, g4⟩ := GoodFloat_move b cb.cx (st.y + collapseMargin st.adj) hb
+    obtain ⟨i1, i2, i3, _, _⟩ := float_place_invariants st.shapes _ cb b' shapes' g1 g3 g4
       hinv.1 hinv.2.1 hinv.2.2 hpl
     obtain ⟨x, y, _, hb', hsh⟩ := floatPlace_ok st.shapes _ cb b' shapes' hpl
     obtain ⟨f1, _, f3, f4, _⟩ := afterClearance_fields st.shapes
       { b with px := cb.cx, py := st.y + collapseMargin st.adj }
     rw [← h.1]
-    refine ⟨⟨i1, i2, i3⟩, rfl, b'.px, b'.py, b'.marginWidth, b'.marginHeight, h.2.symm, ?_⟩
+    refine ⟨⟨i1, i2, i3⟩, b'.px, b'.py, b'.marginWidth, b'.marginHeight, h.2.symm, ?_⟩
     simp only
     rw [hsh, hb']
     simp [Shape.rect, ABox.marginWidth, ABox.marginHeight] at f3 f4 ⊢
     constructor <;> grind
 
-/-- One child of the container keeps `excluded_shapes` well formed (and equal to the top of the stack of
-formatting contexts), and adds to it exactly the margin box it reports for a block-level float (nothing for any
-other item). -/
+/-- One child of the container keeps `excluded_shapes` well formed, and adds to it exactly the margin box it
+reports for a block-level float (nothing for any other item). -/
 theorem flowStep_inv (cb : CB) (st st' : FlowState) (it : Item) (pl : Placed)
-    (hit : ItemOk cb it) (hinv : FloatsInv st.shapes) (htop : st.top = st.shapes)
-    (h : flowStep cb st it = .ok (st', pl)) :
-    FloatsInv st'.shapes ∧ st'.top = st'.shapes ∧
+    (hit : ItemOk cb it) (hinv : FloatsInv st.shapes) (h : flowStep cb st it = .ok (st', pl)) :
+    FloatsInv st'.shapes ∧
     st'.shapes.map Shape.rect = st.shapes.map Shape.rect ++ floatRects [pl] := by
   cases it with
   | float b =>
-    obtain ⟨i, t, x, y, mw, mh, hp, hs⟩ := flowFloat_inv cb st st' b pl hit hinv htop (by simpa [flowStep] using h)
-    exact ⟨i, t, by rw [hs, hp]; simp [floatRects]⟩
+    obtain ⟨i, x, y, mw, mh, hp, hs⟩ := flowFloat_inv cb st st' b pl hit hinv (by simpa [flowStep] using h)
+    exact ⟨i, by rw [hs, hp]; simp [floatRects]⟩
   | floatSpec f =>
-    obtain ⟨i, t, x, y, mw, mh, hp, hs⟩ := flowFloat_inv cb st st' _ pl hit hinv htop (by simpa [flowStep] using h)
-    exact ⟨i, t, by rw [hs, hp]; simp [floatRects]⟩
+    obtain ⟨i, x, y, mw, mh, hp, hs⟩ := flowFloat_inv cb st st' _ pl hit hinv (by simpa [flowStep] using h)
+    exact ⟨i, by rw [hs, hp]; simp [floatRects]⟩
   | para c fs align lines mt mb =>
-    simp only [flowStep, htop] at h
+    simp only [flowStep] at h
     split at h
     · simp at h
-    · rename_i shapes' top' placed y' hl
+    · rename_i shapes' placed y' hl
       simp only [Except.ok.injEq, Prod.mk.injEq] at h
-      have := layoutLines_shapes cb fs align st.shapes lines hit _ _ _ _ _ hl
+      have := layoutLines_shapes cb fs align st.shapes lines hit _ _ _ _ hl
       rw [← h.1, ← h.2]
-      simp [floatRects, this.1, this.2, hinv]
+      simp [floatRects, this, hinv]
   | bfc c width h0 ml mr mt mb =>
-    simp only [flowStep, htop] at h
+    simp only [flowStep] at h
     split at h
     · simp at h
     · simp only [Except.ok.injEq, Prod.mk.injEq] at h
@@ -279,9 +269,9 @@ theorem flowStep_inv (cb : CB) (st st' : FlowState) (it : Item) (pl : Placed)
   | block c h0 mt mb =>
     simp only [flowStep, Except.ok.injEq, Prod.mk.injEq] at h
     rw [← h.1, ← h.2]
-    split <;> simp [floatRects, hinv, htop]
+    split <;> simp [floatRects, hinv]
   | replaced kind c w h0 ml mr =>
-    simp only [flowStep, htop, ite_self] at h
+    simp only [flowStep] at h
     split at h
     · simp at h
     · simp only [Except.ok.injEq, Prod.mk.injEq] at h
@@ -297,7 +287,7 @@ margins, `clear`, percentages, auto widths), paragraphs, BFC roots, images, tabl
 collapsing margins, the floats end up pairwise disjoint with their tops in document order — the reported
 margin boxes of the floats are exactly a well-formed `excluded_shapes` list. -/
 theorem flow_floats_disjoint_and_ordered (cb : CB) (items : List Item) (st : FlowState) (out : List Placed)
-    (hit : ∀ it ∈ items, ItemOk cb it) (hinv : FloatsInv st.shapes) (htop : st.top = st.shapes)
+    (hit : ∀ it ∈ items, ItemOk cb it) (hinv : FloatsInv st.shapes)
     (h : flowFrom cb st items = .ok out) :
     ∃ shapes', FloatsInv shapes' ∧ floatsOk shapes' = true ∧
       shapes'.map Shape.rect = st.shapes.map Shape.rect ++ floatRects out := by
@@ -314,8 +304,8 @@ theorem flow_floats_disjoint_and_ordered (cb : CB) (items : List Item) (st : Flo
       · simp at h
       · rename_i out' hrest
         simp only [Except.ok.injEq] at h
-        obtain ⟨i1, it1, i2⟩ := flowStep_inv cb st st' it pl (hit it (by simp)) hinv htop hstep
-        obtain ⟨sh, j1, j2, j3⟩ := ih st' out' (fun it' h' => hit it' (by simp [h'])) i1 it1 hrest
+        obtain ⟨i1, i2⟩ := flowStep_inv cb st st' it pl (hit it (by simp)) hinv hstep
+        obtain ⟨sh, j1, j2, j3⟩ := ih st' out' (fun it' h' => hit it' (by simp [h'])) i1 hrest
         refine ⟨sh, j1, j2, ?_⟩
         rw [j3, i2, ← h, floatRects_cons pl out', List.append_assoc]
 
@@ -324,8 +314,8 @@ by the checker that the harness runs on rendered documents. -/
 theorem flow_accepted (cb : CB) (items : List Item) (y : Rat) (out : List Placed)
     (hit : ∀ it ∈ items, ItemOk cb it) (h : flow cb [] y items = .ok out) :
     ∃ shapes', floatsOk shapes' = true ∧ shapes'.map Shape.rect = floatRects out := by
-  obtain ⟨sh, _, h2, h3⟩ := flow_floats_disjoint_and_ordered cb items ⟨[], [], y, []⟩ out hit
-    ⟨by intro s hs; simp at hs, by simp [SortedTops], by simp [PairwiseDisjoint]⟩ rfl h
+  obtain ⟨sh, _, h2, h3⟩ := flow_floats_disjoint_and_ordered cb items ⟨[], y, []⟩ out hit
+    ⟨by intro s hs; simp at hs, by simp [SortedTops], by simp [PairwiseDisjoint]⟩ h
   exact ⟨sh, h2, by simpa using h3⟩
 
 end Wp.C11
@@ -336,16 +326,15 @@ open Wp Wp.Floats
 /-! ## In-flow boxes of the flow and floats -/
 
 /-- **A BFC root placed by the flow overlaps no float when it fits**: the border box reported for a `bfc` item of
-positive height that is not wider than the room `avoid_collisions` found overlaps no float of the context (the list
-on top of the stack of formatting contexts, which is current again once the root's own content is laid out) and
+positive height that is not wider than the room `avoid_collisions` found overlaps no float of the context and
 lies inside the containing block shrunk by its margins. -/
 theorem flow_bfc_no_overlap (cb : CB) (st st' : FlowState) (c : Clear) (width : Len) (h0 ml mr mt mb : Rat)
-    (x y w h : Rat) (hh : 0 < h0) (hp : Proper st.top)
+    (x y w h : Rat) (hh : 0 < h0) (hp : Proper st.shapes)
     (hstep : flowStep cb st (.bfc c width h0 ml mr mt mb) = .ok (st', .bfc x y w h))
-    (hroom : ∀ p, avoidCollisions st.top
+    (hroom : ∀ p, avoidCollisions st.shapes
       ⟨cb.cx, (clearedTop st.shapes c st.y (collapseMargin (st.adj ++ [mt]))).1 - mt, mt, mb, ml, mr, w, h0,
         .none, c, .bfc⟩ cb false = .ok p → w ≤ p.avail) :
-    (∀ s ∈ st.top, ¬ Overlaps x y w h s) ∧ cb.cx + ml ≤ x ∧ x + w ≤ cb.cx + cb.w - mr ∧
+    (∀ s ∈ st.shapes, ¬ Overlaps x y w h s) ∧ cb.cx + ml ≤ x ∧ x + w ≤ cb.cx + cb.w - mr ∧
     (clearedTop st.shapes c st.y (collapseMargin (st.adj ++ [mt]))).1 ≤ y := by
   simp only [flowStep] at hstep
   split at hstep
@@ -355,7 +344,7 @@ theorem flow_bfc_no_overlap (cb : CB) (st st' : FlowState) (c : Clear) (width : 
     obtain ⟨_, hx, hy, hw, hh'⟩ := hstep
     subst hw
     have hfit := hroom p hp'
-    have := placed_box_no_overlap st.top _ cb false p (by simp) hp' (by simpa using hh) hp
+    have := placed_box_no_overlap st.shapes _ cb false p hp' (by simpa using hh) hp
       (by simpa using hfit)
     simp at this
     rw [← hx, ← hy, ← hh']
@@ -382,39 +371,17 @@ theorem floatPlace_not_above (shapes : List Shape) (b : ABox) (cb : CB) (b' : AB
   obtain ⟨r1, _⟩ := float_rules shapes _ cb x y (by rw [f1]; exact hf) hpos
   rw [hb']; simp; grind
 
-/-- The same with the two float lists of `float_layout` (clearance from the current list, position among the
-floats of the stack's top): never above the position it is given. -/
-theorem floatLayout_not_above (attr top : List Shape) (b : ABox) (cb : CB) (b' : ABox) (top' : List Shape)
-    (hf : b.float ≠ .none) (h : floatLayout attr top b cb = .ok (b', top')) :
-    b.py ≤ b'.py := by
-  unfold floatLayout at h
-  simp only at h
-  split at h
-  · simp at h
-  · rename_i x y hpos
-    simp only [Except.ok.injEq, Prod.mk.injEq] at h
-    obtain ⟨f1, _, _, _, _⟩ := afterClearance_fields attr b
-    have h1 : b.py ≤ (afterClearance attr b).py := by
-      unfold afterClearance
-      split
-      · rename_i c hc
-        have := (clearance_least attr b.clear b.py 0 c hc).1
-        simp; grind
-      · exact Rat.le_refl
-    obtain ⟨r1, _⟩ := float_rules top _ cb x y (by rw [f1]; exact hf) hpos
-    rw [← h.1]; simp; grind
-
 /-- **A float met in a line is never placed above that line** (second pass: the deferred floats are laid out
 from the line's bottom; the floats kept on the line have been given the line's top). -/
 theorem inline_floats_not_above_line (cb : CB) (lineTop lineBottom : Rat) (hle : lineTop ≤ lineBottom)
-    (marks : List (ABox × Option (Rat × Rat × Rat × Rat))) (attr top attr' top' : List Shape)
+    (marks : List (ABox × Option (Rat × Rat × Rat × Rat))) (shapes shapes' : List Shape)
     (rects : List (Rat × Rat × Rat × Rat))
     (hgood : ∀ m ∈ marks, m.1.float ≠ .none)
     (hplaced : ∀ m ∈ marks, ∀ r, m.2 = some r → lineTop ≤ r.2.1)
-    (h : inlinePass2 cb lineBottom attr top marks = .ok (attr', top', rects)) :
+    (h : inlinePass2 cb lineBottom shapes marks = .ok (shapes', rects)) :
     ∀ r ∈ rects, lineTop ≤ r.2.1 := by
-  induction marks generalizing attr top attr' top' rects with
-  | nil => simp [inlinePass2] at h; rw [h.2.2]; simp
+  induction marks generalizing shapes shapes' rects with
+  | nil => simp [inlinePass2] at h; rw [h.2]; simp
   | cons m rest ih =>
     obtain ⟨b, o⟩ := m
     cases o with
@@ -422,10 +389,10 @@ theorem inline_floats_not_above_line (cb : CB) (lineTop lineBottom : Rat) (hle :
       simp only [inlinePass2] at h
       split at h
       · simp at h
-      · rename_i a t out hrec
+      · rename_i sh out hrec
         simp only [Except.ok.injEq, Prod.mk.injEq] at h
-        have := ih attr top a t out (fun m hm => hgood m (by simp [hm])) (fun m hm => hplaced m (by simp [hm])) hrec
-        rw [← h.2.2]
+        have := ih shapes sh out (fun m hm => hgood m (by simp [hm])) (fun m hm => hplaced m (by simp [hm])) hrec
+        rw [← h.2]
         intro r hr
         rcases List.mem_cons.mp hr with hr | hr
         · rw [hr]; exact hplaced (b, some r0) (by simp) r0 rfl
@@ -437,35 +404,34 @@ theorem inline_floats_not_above_line (cb : CB) (lineTop lineBottom : Rat) (hle :
       · rename_i b' sh1 hpl
         split at h
         · simp at h
-        · rename_i a t out hrec
+        · rename_i sh out hrec
           simp only [Except.ok.injEq, Prod.mk.injEq] at h
           have hg := hgood (b, none) (by simp)
-          have hy := floatLayout_not_above attr top { b with px := cb.cx, py := lineBottom } cb b' sh1
-            hg hpl
-          have := ih sh1 sh1 a t out (fun m hm => hgood m (by simp [hm])) (fun m hm => hplaced m (by simp [hm])) hrec
-          rw [← h.2.2]
+          have hy := floatPlace_not_above shapes { b with px := cb.cx, py := lineBottom } cb b' sh1 hg hpl
+          have := ih sh1 sh out (fun m hm => hgood m (by simp [hm])) (fun m hm => hplaced m (by simp [hm])) hrec
+          rw [← h.2]
           intro r hr
           rcases List.mem_cons.mp hr with hr | hr
           · rw [hr]; simp at hy ⊢; grind
           · exact this r hr
 
 /-- … and the floats laid out on the line itself (first pass) are not above the line's top either. -/
-theorem inline_placed_not_above_line (cb : CB) (lineY : Rat) (attr top attr' top' : List Shape) (rem : Rat)
+theorem inline_placed_not_above_line (cb : CB) (lineY : Rat) (shapes shapes' : List Shape) (rem : Rat)
     (w : Bool) (bs : List ABox) (marks : List (ABox × Option (Rat × Rat × Rat × Rat)))
     (hgood : ∀ b ∈ bs, b.float ≠ .none)
-    (h : inlinePass1 cb lineY attr top rem w bs = .ok (attr', top', marks)) :
+    (h : inlinePass1 cb lineY shapes rem w bs = .ok (shapes', marks)) :
     (∀ m ∈ marks, m.1.float ≠ .none) ∧ ∀ m ∈ marks, ∀ r, m.2 = some r → lineY ≤ r.2.1 := by
-  induction bs generalizing attr top attr' top' rem w marks with
-  | nil => simp [inlinePass1] at h; rw [h.2.2]; simp
+  induction bs generalizing shapes shapes' rem w marks with
+  | nil => simp [inlinePass1] at h; rw [h.2]; simp
   | cons b rest ih =>
     simp only [inlinePass1] at h
     split at h
     · split at h
       · simp at h
-      · rename_i a t o hrec
+      · rename_i a o hrec
         simp only [Except.ok.injEq, Prod.mk.injEq] at h
-        obtain ⟨i1, i2⟩ := ih attr top a t rem true o (fun b hb => hgood b (by simp [hb])) hrec
-        rw [← h.2.2]
+        obtain ⟨i1, i2⟩ := ih shapes a rem true o (fun b hb => hgood b (by simp [hb])) hrec
+        rw [← h.2]
         refine ⟨?_, ?_⟩
         · intro m hm
           rcases List.mem_cons.mp hm with hm | hm
@@ -480,12 +446,12 @@ theorem inline_placed_not_above_line (cb : CB) (lineY : Rat) (attr top attr' top
       · rename_i b' sh1 hpl
         split at h
         · simp at h
-        · rename_i a t o hrec
+        · rename_i a o hrec
           simp only [Except.ok.injEq, Prod.mk.injEq] at h
-          have hy := floatLayout_not_above attr top { b with px := cb.cx, py := lineY } cb b' sh1
+          have hy := floatPlace_not_above shapes { b with px := cb.cx, py := lineY } cb b' sh1
             (hgood b (by simp)) hpl
-          obtain ⟨i1, i2⟩ := ih sh1 sh1 a t _ false o (fun b hb => hgood b (by simp [hb])) hrec
-          rw [← h.2.2]
+          obtain ⟨i1, i2⟩ := ih sh1 a _ false o (fun b hb => hgood b (by simp [hb])) hrec
+          rw [← h.2]
           refine ⟨?_, ?_⟩
           · intro m hm
             rcases List.mem_cons.mp hm with hm | hm
@@ -507,16 +473,14 @@ private theorem avoidCollisions_err (shapes : List Shape) (b : ABox) (cb : CB) (
   unfold avoidCollisions at h
   simp only at h
   split at h
-  · simp at h
+  · simp at h; exact Or.inl h.symm
   · split at h
-    · simp at h; exact Or.inl h.symm
-    · split at h
-      · simp at h; exact Or.inr h.symm
-      · split at h <;> simp at h
+    · simp at h; exact Or.inr h.symm
+    · split at h <;> simp at h
 
-private theorem floatLayout_err (attr top : List Shape) (b : ABox) (cb : CB) (e : PyErr)
-    (h : floatLayout attr top b cb = .error e) : FloatErr e := by
-  unfold floatLayout at h
+private theorem floatPlace_err (shapes : List Shape) (b : ABox) (cb : CB) (e : PyErr)
+    (h : floatPlace shapes b cb = .error e) : FloatErr e := by
+  unfold floatPlace at h
   simp only at h
   split at h
   · rename_i e' he
@@ -530,31 +494,31 @@ private theorem floatLayout_err (attr top : List Shape) (b : ABox) (cb : CB) (e 
     · simp at he
   · simp at h
 
-private theorem inlinePass1_err (cb : CB) (lineY : Rat) (attr top : List Shape) (rem : Rat) (w : Bool)
-    (bs : List ABox) (e : PyErr) (h : inlinePass1 cb lineY attr top rem w bs = .error e) : FloatErr e := by
-  induction bs generalizing attr top rem w with
+private theorem inlinePass1_err (cb : CB) (lineY : Rat) (shapes : List Shape) (rem : Rat) (w : Bool)
+    (bs : List ABox) (e : PyErr) (h : inlinePass1 cb lineY shapes rem w bs = .error e) : FloatErr e := by
+  induction bs generalizing shapes rem w with
   | nil => simp [inlinePass1] at h
   | cons b rest ih =>
     simp only [inlinePass1] at h
     split at h
     · split at h
-      · rename_i e' he; simp at h; subst h; exact ih _ _ _ _ he
+      · rename_i e' he; simp at h; subst h; exact ih _ _ _ he
       · simp at h
     · split at h
-      · rename_i e' he; simp at h; subst h; exact floatLayout_err _ _ _ _ _ he
+      · rename_i e' he; simp at h; subst h; exact floatPlace_err _ _ _ _ he
       · split at h
-        · rename_i e' he; simp at h; subst h; exact ih _ _ _ _ he
+        · rename_i e' he; simp at h; subst h; exact ih _ _ _ he
         · simp at h
 
 private theorem floatErr_not_loop (e : PyErr) (h : FloatErr e) : e ≠ .recursion "get_next_linebox:loop" := by
   rcases h with h | h <;> subst h <;> simp
 
 private theorem lineLoop_succ (cb : CB) (strut : Rat) (align : Align) (l : LineSpec) (shapes0 : List Shape)
-    (fuel : Nat) (attr top : List Shape) (px py avail lbw cand : Rat) :
-    lineLoop cb strut align l shapes0 (fuel + 1) attr top px py avail lbw cand =
-      (match inlinePass1 cb py (if l.bfc then top else attr) top (avail - l.w) false l.floats with
+    (fuel : Nat) (px py avail lbw cand : Rat) :
+    lineLoop cb strut align l shapes0 (fuel + 1) px py avail lbw cand =
+      (match inlinePass1 cb py shapes0 (avail - l.w) false l.floats with
       | .error e => .error e
-      | .ok (shapes1, top1, marks) =>
+      | .ok (shapes1, marks) =>
         let split : ABox := ⟨px, py, 0, 0, 0, 0, l.w, strut, .none, .none, .line⟩
         let laid : ABox := ⟨px, py, 0, 0, 0, 0, l.w, l.h, .none, .none, .line⟩
         match avoidCollisions shapes1 split cb false with
@@ -562,26 +526,25 @@ private theorem lineLoop_succ (cb : CB) (strut : Rat) (align : Align) (l : LineS
         | .ok p2 =>
           let off := textAlign align cb.rtl l.w p2.avail
           let x := if cb.rtl then px + (-off - l.w) else px + off
-          if l.h ≤ cand then .ok ⟨shapes1, top1, marks, x, py⟩ else
+          if l.h ≤ cand then .ok ⟨shapes1, marks, x, py⟩ else
           match avoidCollisions shapes0 laid cb false with
           | .error e => .error e
           | .ok p3 =>
             let same := if !cb.rtl then p3.x = px ∧ p3.y = py else p3.x + l.w = px + lbw ∧ p3.y = py
-            if same then .ok ⟨shapes1, top1, marks, x, py⟩
-            else lineLoop cb strut align l shapes0 fuel shapes0 top1 p3.x p3.y p3.avail l.w l.h) := by
+            if same then .ok ⟨shapes1, marks, x, py⟩
+            else lineLoop cb strut align l shapes0 fuel p3.x p3.y p3.avail l.w l.h) := by
   rfl
 
 /-- One pass that starts with the line's own height as candidate height ends the loop. -/
 private theorem lineLoop_second (cb : CB) (strut : Rat) (align : Align) (l : LineSpec) (shapes0 : List Shape)
-    (n : Nat) (attr top : List Shape) (px py avail lbw : Rat) :
-    lineLoop cb strut align l shapes0 (n + 1) attr top px py avail lbw l.h ≠
-      .error (.recursion "get_next_linebox:loop") := by
+    (n : Nat) (px py avail lbw : Rat) :
+    lineLoop cb strut align l shapes0 (n + 1) px py avail lbw l.h ≠ .error (.recursion "get_next_linebox:loop") := by
   rw [lineLoop_succ]
   simp only
   split
   · rename_i e he
     intro h; simp at h
-    exact floatErr_not_loop e (inlinePass1_err _ _ _ _ _ _ _ _ he) h
+    exact floatErr_not_loop e (inlinePass1_err _ _ _ _ _ _ _ he) h
   · split
     · rename_i e he
       intro h; simp at h
@@ -592,15 +555,14 @@ private theorem lineLoop_second (cb : CB) (strut : Rat) (align : Align) (l : Lin
 is given goes through the loop at most twice (the second pass starts with the line's own height as
 candidate height), so the fuel of the model (3) is never exhausted. -/
 theorem next_linebox_terminates (cb : CB) (strut : Rat) (align : Align) (l : LineSpec) (shapes0 : List Shape)
-    (n : Nat) (attr top : List Shape) (px py avail lbw cand : Rat) :
-    lineLoop cb strut align l shapes0 (n + 2) attr top px py avail lbw cand ≠
-      .error (.recursion "get_next_linebox:loop") := by
+    (n : Nat) (px py avail lbw cand : Rat) :
+    lineLoop cb strut align l shapes0 (n + 2) px py avail lbw cand ≠ .error (.recursion "get_next_linebox:loop") := by
   rw [lineLoop_succ]
   simp only
   split
   · rename_i e he
     intro h; simp at h
-    exact floatErr_not_loop e (inlinePass1_err _ _ _ _ _ _ _ _ he) h
+    exact floatErr_not_loop e (inlinePass1_err _ _ _ _ _ _ _ he) h
   · split
     · rename_i e he
       intro h; simp at h
@@ -613,7 +575,7 @@ theorem next_linebox_terminates (cb : CB) (strut : Rat) (align : Align) (l : Lin
           exact floatErr_not_loop e (avoidCollisions_err _ _ _ _ _ he) h
         · split <;> split <;>
             first
-              | exact lineLoop_second cb strut align l shapes0 n _ _ _ _ _ _
+              | exact lineLoop_second cb strut align l shapes0 n _ _ _ _
               | simp
 
 end Wp.C11
@@ -822,7 +784,7 @@ out by the model, and its floats pass the checker. -/
 example :
     let items : List Item := [
       .float ⟨0, 0, 0, 0, 0, 0, 60, 50, .left, .none, .bfc⟩,
-      .para .none 10 .right [⟨30, 30, 10, [], false⟩, ⟨0, 50, 30, [], true⟩] 0 7,
+      .para .none 10 .right [⟨30, 30, 10, []⟩, ⟨0, 50, 30, []⟩] 0 7,
       .floatSpec ⟨.right, .left, .auto, none, .px 0, .pct 25, .auto, .px 0, .px 2, .px 2, .px 0, .px 0, 1, 1, 0, 0,
         .auto, .px 40, 30, 70, 10, 20⟩,
       .block .both 5 12 0,
@@ -1007,6 +969,91 @@ example :
     let outer : FixedTree := .mk 1 ⟨.auto, .pct 10, .auto, .px 6, 60, 40, 0, 0, 0, 0⟩ false [inner]
     (layoutFixedDoc [⟨40, 25, 150, 265⟩, ⟨10, 10, 150, 260⟩] [[outer], []]).map Except.toOption =
       [some [(1, 115, 244), (2, 45, 33)], some [(1, 85, 224), (2, 15, 18)]] := by
+  decide +kernel
+
+end Wp.C11
+
+namespace Wp.C11
+open Wp Wp.Positioned Wp.Absolute
+
+/-! ## The content of a fixed box: its own page against the pages it is repeated on (`Model/FixedPages.lean`) -/
+
+theorem keptFrom_le (limit : Option Rat) (y : Rat) (first : Bool) (hs : List Rat) :
+    keptFrom limit y first hs ≤ hs.length := by
+  induction hs generalizing y first with
+  | nil => simp [keptFrom]
+  | cons h rest ih =>
+    have := ih (y + h) false
+    cases limit with
+    | none => simp only [keptFrom, Bool.and_false, Bool.false_eq_true, if_false, List.length_cons]; omega
+    | some l =>
+      simp only [keptFrom, List.length_cons]
+      by_cases hc : (!first && decide (y + h > l)) = true
+      · rw [if_pos hc]; omega
+      · rw [if_neg hc]; omega
+
+/-- Without a page bottom to respect (`bottom_space = -inf`) nothing is cut. -/
+theorem keptFrom_none (y : Rat) (first : Bool) (hs : List Rat) : keptFrom none y first hs = hs.length := by
+  induction hs generalizing y first with
+  | nil => simp [keptFrom]
+  | cons h rest ih =>
+    simp only [keptFrom, Bool.and_false, Bool.false_eq_true, if_false, List.length_cons, ih]; omega
+
+/-- Content that ends above the limit is kept whole. -/
+theorem keptFrom_fits (l y : Rat) (first : Bool) (hs : List Rat) (hpos : ∀ h ∈ hs, 0 ≤ h)
+    (hfit : y + hs.sum ≤ l) : keptFrom (some l) y first hs = hs.length := by
+  induction hs generalizing y first with
+  | nil => simp [keptFrom]
+  | cons h rest ih =>
+    have h0 := hpos h (by simp)
+    have hr : ∀ h' ∈ rest, 0 ≤ h' := fun h' hh => hpos h' (by simp [hh])
+    have hsum : 0 ≤ rest.sum := by
+      clear ih hfit hpos
+      induction rest with
+      | nil => simp
+      | cons a t iht =>
+        have := hr a (by simp)
+        have := iht (fun h' hh => hr h' (by simp [hh]))
+        simp; grind
+    simp only [List.sum_cons] at hfit
+    have hnot : ¬ (y + h > l) := by grind
+    simp only [keptFrom, hnot, decide_false, Bool.and_false, Bool.false_eq_true, if_false, List.length_cons]
+    rw [ih (y + h) false hr (by grind)]; omega
+
+/-- **A fixed box repeated on another page holds all its content**: `layout_fixed_boxes` never cuts it. -/
+theorem fixed_kept_on_other_pages (pageBottom : Rat) (vb : VBox) (cbY cbH : Rat) (hs : List Rat) :
+    fixedKept none pageBottom vb cbY cbH hs = hs.length := by
+  simp [fixedKept, absBottomSpace, keptFrom_none]
+
+/-- On any page the first block is kept (`page_is_empty_with_no_children`) and nothing is invented. -/
+theorem fixed_kept_bounds (base : Option Rat) (pageBottom : Rat) (vb : VBox) (cbY cbH : Rat) (hs : List Rat)
+    (hne : hs ≠ []) :
+    1 ≤ fixedKept base pageBottom vb cbY cbH hs ∧ fixedKept base pageBottom vb cbY cbH hs ≤ hs.length := by
+  refine ⟨?_, keptFrom_le _ _ _ _⟩
+  cases hs with
+  | nil => exact absurd rfl hne
+  | cons h rest => simp [fixedKept, keptFrom]
+
+/-
+Full statement (false of the current code, see `Witness.C11.fixed_box_fragmented_on_own_page`):
+  theorem fixed_same_content : fixedKept (some 0) pb vb cbY cbH hs = fixedKept none pb vb cbY cbH hs
+-/
+/-- **A fixed box holds the same content on its own page as on every other page** when that content — laid out at
+the box's static position — ends above `page_bottom - bottom_space`, `bottom_space` being the translation that
+`absolute_block` is about to apply (`-position_y` when the box is moved by its height). -/
+theorem fixed_same_content_partial (pageBottom : Rat) (vb : VBox) (cbY cbH : Rat) (hs : List Rat)
+    (hpos : ∀ h ∈ hs, 0 ≤ h)
+    (hfit : let r := absoluteHeight vb cbY cbH
+      vb.posY + autoZero r.1.mt + vb.bt + vb.pt + hs.sum ≤
+        pageBottom - (0 + (if r.2.1 then -r.1.posY else r.2.2))) :
+    fixedKept (some 0) pageBottom vb cbY cbH hs = fixedKept none pageBottom vb cbY cbH hs := by
+  rw [fixed_kept_on_other_pages]
+  simp only [fixedKept, absBottomSpace, Option.map_some]
+  exact keptFrom_fits _ _ _ _ hpos hfit
+
+/-- Non-vacuity: `top: 100px` with two 10px blocks on a 320px page with 16px margins fits on its own page. -/
+example : fixedKept (some 0) 304 ⟨some 100, none, none, some 0, some 0, 0, 0, 0, 0, 16⟩ 16 288 [10, 10] = 2 ∧
+    fixedKept none 304 ⟨some 100, none, none, some 0, some 0, 0, 0, 0, 0, 16⟩ 16 288 [10, 10] = 2 := by
   decide +kernel
 
 end Wp.C11
